@@ -563,3 +563,22 @@ Example attached_dict_history_example :
   ms_dms (h_ms (run false (h_init p) (firstn 4 ops))) = true /\
   ms_dms (h_ms (run false (h_init p) ops)) = false.
 Proof. exact attached_dict_history_example_lemma. Qed.
+
+(* 25. R3.  Observation 6.6 of docs/C15.md about the model: block mode does not enforce the window, so an index correction
+   is visible there (frequent-correction build, windowLog 10, a 100-byte dictionary loaded): after one 128 KiB block in
+   block mode the dictionary is still in force and a cell holding index 5000 (126174 bytes back) is usable
+   (ZSTD_getLowestMatchIndex = 2); the next block starts with a correction that zeroes it.  Through frame mode the same
+   bytes leave the dictionary dropped and the lowest usable index at curr - 1024: the cell was out of reach already. *)
+Example block_mode_correction_is_visible :
+  let p := mkCParams 10 4 4 1 false in
+  let begin_ := OpBegin p 0 false true 1000 1000 100 (Some (mkDict 50000 100 false false)) in
+  let cell := mkTables (5000 :: repeat 0 15) [] [] in
+  let hb := run true (h_init p) [begin_; OpBlockMode 100000 131072; OpFinder 131174 cell] in
+  let hf := run true (h_init p) [begin_; OpContinue 100000 [131072]; OpFinder 131174 cell] in
+  let curr := 131174 in
+  ms_loadedDictEnd (h_ms hb) = 102 /\ getLowestMatchIndex (ms_window (h_ms hb)) (ms_loadedDictEnd (h_ms hb)) curr 10 = 2 /\
+  step_ok true hb (OpBlockMode 231072 131072) = true /\
+  nbOvf (ms_window (h_ms (step true hb (OpBlockMode 231072 131072)))) = 1 /\
+  hd 1 (hashTable (ms_tables (h_ms (step true hb (OpBlockMode 231072 131072))))) = 0 /\
+  ms_loadedDictEnd (h_ms hf) = 0 /\ getLowestMatchIndex (ms_window (h_ms hf)) (ms_loadedDictEnd (h_ms hf)) curr 10 = curr - 1024.
+Proof. exact block_mode_correction_is_visible_lemma. Qed.
